@@ -609,7 +609,7 @@ def expand(prop, sc, rng):
         return out
     every = sc.get('enumerate_all')
     if every:
-        points = list(range(2, n))
+        points = list(range(2, n)) if n <= 160 else sorted(set(rng.randrange(2, n) for _ in range(160)))
     else:
         k = min(n - 2, 10)
         points = sorted(set(rng.randrange(2, max(3, n)) for _ in range(k)))
